@@ -141,7 +141,7 @@ class BundleRun:
                 continue
             cl = self.fmap.clause_at(pos)
             hits.append({'label': sp.get('label'), 'primary': sp.get('primary'), 'text': sp.get('text'),
-                         'clause': ({'id': cl['id'], 'fn': cl['fn'], 'kind': cl['kind'], 'tags': cl['tags'], 'text': cl['text']} if cl else None)})
+                         'clause': ({'id': cl['id'], 'fn': cl['fn'], 'kind': cl['kind'], 'tags': cl['tags'], 'attr': cl.get('attr'), 'text': cl['text']} if cl else None)})
         return {'message': err['message'], 'where': hits}
 
 
